@@ -3,6 +3,7 @@
 The derivative programs themselves (jaxprs of jax.jvp / jax.vjp of the real functions) are interpreted symbolically."""
 from __future__ import annotations
 
+import os
 import time
 import numpy as np
 
@@ -19,39 +20,179 @@ PID = 'C08'
 MOD = 'checks.c08'
 
 
+def _hazard_witness(sp, hz, rng, timeout_ms=20000):
+  """Solver query: is there a point of the admissible box at which the hazardous operand leaves its domain
+  (denominator = 0, log/rsqrt/pow argument <= 0, sqrt argument < 0)?  Atom variables met in the operand are tied to
+  their definitions (sqrt: a >= 0 and a^2 = arg; recip: a * arg = 1; abs / relu by cases).  Returns
+  (verdict, x) with x a completed point of the space or None."""
+  import z3
+  from dverif import smt
+  atom = hz.atom
+  lo = np.asarray(sp.lo); hi = np.asarray(sp.hi)
+  atom_by_var = {a['var']: a for a in sp.atoms}
+  zv = {}
+  cons = []
+  pending = []
+
+  def var(v):
+    if v not in zv:
+      zv[v] = z3.Real(f'x{v}')
+      if v in atom_by_var:
+        pending.append(atom_by_var[v])
+      else:
+        if np.isfinite(lo[v]): cons.append(zv[v] >= z3.RealVal(smt.Fraction(float(lo[v]))))
+        if np.isfinite(hi[v]): cons.append(zv[v] <= z3.RealVal(smt.Fraction(float(hi[v]))))
+    return zv[v]
+
+  def poly(cols, vals):
+    slots = sp.slots(sp.codes[cols])
+    e = z3.RealVal(0)
+    for k in range(len(cols)):
+      t = z3.RealVal(smt.Fraction(float(vals[k])))
+      for sv in slots[k]:
+        if sv:
+          t = t * var(int(sv) - 1)
+      e = e + t
+    return e
+  target = poly(atom['cols'], atom['vals'])
+  kind = hz.obligation['kind']
+  goal = {'nonzero': target == 0, 'positive': target <= 0, 'nonneg': target <= 0}[kind]   # derivative programs: sqrt is not differentiable at 0 either
+  done = set()
+  while pending:
+    a = pending.pop()
+    if a['var'] in done:
+      continue
+    done.add(a['var'])
+    arg = poly(a['cols'], a['vals'])
+    av = zv[a['var']]
+    if a['kind'] == 'sqrt':
+      cons += [av >= 0, av * av == arg]
+    elif a['kind'] == 'recip':
+      cons += [av * arg == 1]
+    elif a['kind'] == 'rsqrt':
+      cons += [av > 0, av * av * arg == 1]
+    elif a['kind'] == 'abs':
+      cons += [z3.If(arg >= 0, av == arg, av == -arg)]
+    elif a['kind'] == 'relu':
+      cons += [z3.If(arg >= 0, av == arg, av == 0)]
+    # other kinds (exp, log, sin, ...): left unconstrained - a witness then may fail to replay, which is reported as inconclusive
+  verdict, model = smt.check_z3(cons + [goal], 'QF_NRA', timeout_ms, True, False)
+  if verdict != 'sat':
+    return verdict, None
+  fin = np.isfinite(lo) & np.isfinite(hi)
+  x = np.where(fin, (np.where(fin, lo, 0) + np.where(fin, hi, 0)) / 2, 0.0)
+  for v, zvv in zv.items():
+    if v in atom_by_var:
+      continue
+    val = model.eval(zvv, model_completion=True)
+    try:
+      x[v] = float(val.as_fraction())
+    except Exception:  # noqa: BLE001  (algebraic number)
+      x[v] = float(val.approx(30).as_fraction())
+  with np.errstate(all='ignore'):
+    x = sp.complete_point(x)
+  return 'sat', x
+
+
+def _replay_derivatives(ctx, f, xs, vs, pt):
+  """Real jax.jvp / jax.vjp of f at the concrete point pt; returns which of primal/forward/reverse are non-finite."""
+  with np.errstate(all='ignore'):
+    x = [np.nan_to_num(np.asarray(a.evaluate(pt)), nan=0.0) for a in xs]
+    v = [np.nan_to_num(np.asarray(a.evaluate(pt)), nan=0.0) for a in vs]
+  if not any(np.any(t != 0) for t in v):
+    v = [ctx.rng.uniform(-1, 1, t.shape) * (np.asarray(a.free_mask()) if hasattr(a, 'free_mask') else 1.0) for t, a in zip(v, vs)]
+  prim, jv = jax.jvp(f, tuple(map(jnp.asarray, x)), tuple(map(jnp.asarray, v)))
+  _, pull = jax.vjp(f, *map(jnp.asarray, x))
+  w = jtu.tree_map(lambda o: jnp.ones_like(o), prim)
+  jtw = pull(w)
+  bad = {k: not all(bool(np.all(np.isfinite(np.asarray(l)))) for l in jtu.tree_leaves(t)) for k, t in (('primal', prim), ('forward', jv), ('reverse', jtw))}
+  return x, v, [k for k, b in bad.items() if b]
+
+
 def _check_derivatives(ctx, name, f, xs_builder, conf, bits=8, exact_derivative=True, scale_floor=1.0):
   """f: flat arrays -> tuple of arrays.  Builds x, v (tangent), w (cotangent) symbolic and decides
      (a) jvp(f)(x)[v] == d/d eps P_f(x + eps v)  (P_f = polynomial normal form of the primal),
      (b) <J v, w> == <v, J^T w>,
-     (c) finiteness: no non-finite constant / undefined operation is reached in the derivative programs."""
+     (c) finiteness: no non-finite constant / undefined operation is reached in the derivative programs.  An operation whose
+         operand range (interval arithmetic over the box) touches the edge of its domain raises a DefinednessHazard at once;
+         the solver is asked for an admissible state on that edge, and the REAL jax.jvp / jax.vjp are replayed there."""
   from dverif.jsym import NonFiniteConstant
-  try:
-    return _check_derivatives_inner(ctx, name, f, xs_builder, conf, bits, exact_derivative, scale_floor)
-  except NonFiniteConstant as e:
-    # a non-finite constant reached arithmetic with symbolic data in the primal or a derivative program: replay all three on a random state
-    sp = Space(bits=bits)
-    xs = xs_builder(sp, ''); vs = xs_builder(sp, 'v_')
-    pt = sp.random_point(ctx.rng)
-    x = [np.asarray(a.evaluate(pt)) for a in xs]; v = [np.asarray(a.evaluate(pt)) for a in vs]
-    prim, jv = jax.jvp(f, tuple(map(jnp.asarray, x)), tuple(map(jnp.asarray, v)))
-    _, pull = jax.vjp(f, *map(jnp.asarray, x))
-    w = jtu.tree_map(lambda o: jnp.ones_like(o), prim)
-    jtw = pull(w)
-    bad = {k: not all(bool(np.all(np.isfinite(np.asarray(l)))) for l in jtu.tree_leaves(t)) for k, t in (('primal', prim), ('forward', jv), ('reverse', jtw))}
-    if any(bad.values()):
-      which = [k for k, b in bad.items() if b]
-      ctx.violation(f'{name}.derivatives_finite_on_admissible_states', dict(config=conf, kind='nonfinite', which=which),
-                    dict(inputs=[a.tolist() for a in x], tangent=[a.tolist() for a in v], detail=str(e)),
-                    f'{name}: non-finite {"/".join(which)} derivative for a finite admissible state ({e})')
-      ctx.clause(f'{name}.derivatives_finite_on_admissible_states', 'failed', config=conf, queries=0)
-    else:
-      ctx.error(name, f'non-finite constant in the IR but finite primal/forward/reverse results on replay: {e}')
-
-
-def _check_derivatives_inner(ctx, name, f, xs_builder, conf, bits, exact_derivative, scale_floor):
+  from dverif.poly import DefinednessHazard
+  cleared = set()
+  fname = f'{name}.derivatives_finite_on_admissible_states'
+  if ctx.replay is not None:
+    rp = ctx.replay
+    if rp.get('clause') == fname and 'tangent' in rp:
+      x = [jnp.asarray(np.asarray(a, float)) for a in rp['inputs']]; v = [jnp.asarray(np.asarray(a, float)) for a in rp['tangent']]
+      prim, jv = jax.jvp(f, tuple(x), tuple(v))
+      _, pull = jax.vjp(f, *x)
+      jtw = pull(jtu.tree_map(lambda o: jnp.ones_like(o), prim))
+      which = [k for k, t in (('primal', prim), ('forward', jv), ('reverse', jtw)) if not all(bool(np.all(np.isfinite(np.asarray(l)))) for l in jtu.tree_leaves(t))]
+      print(f'REPLAY {fname}: non-finite parts of the real jax.jvp / jax.vjp at the recorded state: {which or "none"}')
+      if which:
+        ctx.res['violations'].append(dict(clause=fname, signature=rp.get('signature'), replay=os.environ.get('DVERIF_REPLAY'), message='replayed'))
+      return None
+  for attempt in range(12):
+    try:
+      return _check_derivatives_inner(ctx, name, f, xs_builder, conf, bits, exact_derivative, scale_floor, cleared)
+    except DefinednessHazard as hz:
+      sp = hz.sp
+      verdict, pt = _hazard_witness(sp, hz, ctx.rng)
+      ob = {k: v for k, v in hz.obligation.items() if k != 'hkey'}
+      if verdict == 'unsat':
+        cleared.add(hz.obligation['hkey'])          # the operand never reaches the edge of the domain on the box: discharged by the solver
+        ctx.clause(fname + '.hazard', 'discharged', config=dict(conf, hazard=ob, verdict='unsat: operand stays inside its domain'), queries=1)
+        continue
+      if verdict != 'sat':
+        ctx.error(fname, f'definedness hazard {ob} undecided ({verdict})')
+        ctx.clause(fname, 'inconclusive', config=dict(conf, hazard=ob), queries=1)
+        return None
+      x, v, which = _replay_derivatives(ctx, f, hz.xs, hz.vs, pt)
+      if which:
+        ctx.violation(fname, dict(config=conf, kind='nonfinite', which=which, hazard=ob['kind']),
+                      dict(inputs=[a.tolist() for a in x], tangent=[a.tolist() for a in v], detail=str(hz)),
+                      f'{name}: non-finite {"/".join(which)} derivative at a finite admissible state where {hz}')
+        ctx.clause(fname, 'failed', config=dict(conf, hazard=ob), queries=1)
+        return None
+      cleared.add(hz.obligation['hkey'])            # the real derivatives are finite there (guarded): continue
+      ctx.clause(fname + '.hazard', 'discharged', config=dict(conf, hazard=ob, verdict='sat witness replays finite (guarded operation)'), queries=1)
+      continue
+    except NonFiniteConstant as e_:
+      e = e_
+      break
+  else:
+    ctx.error(fname, 'more than 12 definedness hazards')
+    return None
+  # a non-finite constant reached arithmetic with symbolic data in the primal or a derivative program: replay all three on a random state
   sp = Space(bits=bits)
+  xs = xs_builder(sp, ''); vs = xs_builder(sp, 'v_')
+  pt = sp.random_point(ctx.rng)
+  x, v, which = _replay_derivatives(ctx, f, xs, vs, pt)
+  if which:
+    ctx.violation(fname, dict(config=conf, kind='nonfinite', which=which),
+                  dict(inputs=[a.tolist() for a in x], tangent=[a.tolist() for a in v], detail=str(e)),
+                  f'{name}: non-finite {"/".join(which)} derivative for a finite admissible state ({e})')
+    ctx.clause(fname, 'failed', config=conf, queries=0)
+  else:
+    ctx.error(name, f'non-finite constant in the IR but finite primal/forward/reverse results on replay: {e}')
+
+
+def _check_derivatives_inner(ctx, name, f, xs_builder, conf, bits, exact_derivative, scale_floor, cleared=None):
+  from dverif.poly import DefinednessHazard
+  sp = Space(bits=bits)
+  sp.eager_obligations = True
+  sp.cleared_obligations = cleared if cleared is not None else set()
   xs = xs_builder(sp, '')
   vs = xs_builder(sp, 'v_')
+  n = len(xs)
+  try:
+    return _check_derivatives_body(ctx, name, f, sp, xs, vs, conf, exact_derivative, scale_floor)
+  except DefinednessHazard as hz:
+    hz.sp, hz.xs, hz.vs = sp, xs, vs
+    raise
+
+
+def _check_derivatives_body(ctx, name, f, sp, xs, vs, conf, exact_derivative, scale_floor):
   n = len(xs)
 
   def jvp_fn(*a):
@@ -98,7 +239,7 @@ def _check_derivatives_inner(ctx, name, f, xs_builder, conf, bits, exact_derivat
     return lhs, rhs
   prove_close(ctx, f'{name}.reverse_mode_is_adjoint_of_forward_mode', adjoint, xs + vs + ws, sp, config=conf, scale_floor=scale_floor)
   # (c) definedness obligations collected while interpreting the derivative programs
-  bad = [o for o in sp.obligations]
+  bad = [o for o in sp.obligations if o.get('hkey') not in sp.cleared_obligations]
   ctx.clause(f'{name}.derivatives_finite_on_admissible_states', 'discharged' if not bad else 'failed', config=dict(conf, atoms=len(sp.atoms)), queries=0,
              note='no non-finite constant, no division by a denominator whose interval contains 0')
   if bad:
